@@ -85,6 +85,13 @@ def print_axioms(modules, theorems):
 def audit(check, modules, theorems):
     """fills check.obligations/discharged/axioms; records broken obligations"""
     check.obligations = list(theorems)
+    # (T) regenerate the tables of the model from /repo's working tree; the *Tie theorems compare them with the model
+    r = subprocess.run(["/venv/bin/python", os.path.join(VERIF, "tools", "extract.py")], capture_output=True, text=True, cwd=VERIF)
+    check.extra["extract"] = (r.stdout.strip().split("\n") or [""])[-1]
+    if r.returncode != 0:
+        check.break_("tools/extract.py could not read the tables off /repo (the source no longer has the shape the translator reads)",
+                     {"log_tail": (r.stdout + r.stderr)[-2000:]})
+        return False
     ok, log = lake_build()
     if ok:
         ok, log = lake_build(list(modules))
